@@ -622,8 +622,8 @@ impl Scenario for C05 {
     }
     fn default_runs(tier: Tier) -> u64 {
         match tier {
-            Tier::Quick => 30_000,
-            Tier::Thorough => 1_500_000,
+            Tier::Quick => 100_000,
+            Tier::Thorough => 4_000_000,
         }
     }
     fn gen(rng: &mut Rng, _tier: Tier, _run: u64) -> C05Trace {
